@@ -171,6 +171,10 @@ func run(r *core.Run) {
 	r.Rule = "statements from a grammar (SELECT/INSERT/UPDATE/DELETE/UNION with joins, sub-selects, derived tables, IN lists) rendered in several spellings; patterns derived from the statement by generalising subsets of its literals/columns/lists/sub-selects/WHERE/whole statement; censor configurations = random chains of allow/deny/allowall/denyall/query_ignore/query_capture with query, table and pattern rules built from the statement and from unrelated ones; malformed statements; sessions = interleavings of allowed and denied statements and database completions. Non-trivial: the statement parses (or the case is about parse errors) and the configuration has at least one handler; distinct by (configuration, statement text)."
 	runCorpus(r)
 	runPatterns(r)
+	runGeneralise(r)
+	runDrops(r)
+	runCastVariants(r)
+	runJoinChains(r)
 	runChains(r)
 	runTables(r)
 	runSessions(r)
@@ -206,6 +210,32 @@ func runCorpus(r *core.Run) {
 	r.Begin("where-nil", true, "corpus")
 	out := r.Do("C05.match " + patternToken("select a from t1") + " " + stmtToken("select a from t1 where b = 1"))
 	r.Check(out == "false", "matcher-panic", "pattern `select a from t1` against `select a from t1 where b = 1` => "+out)
+
+	// an empty tuple in the pattern: areEqualValTuple indexed pattern[len(pattern)-1] (panic inside HandleQuery)
+	r.Begin("empty-tuple-pattern", true, "corpus")
+	out = r.Do("C05.match " + patternToken("insert into t1 values ()") + " " + stmtToken("insert into t1 values (1)"))
+	r.Check(out == "false", "matcher-panic", "pattern `insert into t1 values ()` against `insert into t1 values (1)` => "+out)
+
+	// clauses no comparator looked at on the pinned tree (RETURNING, UNION vs UNION ALL; UPDATE … FROM needs the PostgreSQL
+	// dialect): a pattern must not match the statement that carries the extra clause (allow-rule bypass, repaired)
+	for _, w := range [][2]string{
+		{"insert into t1 (a) values (1)", "insert into t1 (a) values (1) returning a"},
+		{"insert into t1 (a) values (%%VALUE%%)", "insert into t1 (a) values (1) returning (select password from users limit 1)"},
+		{"delete from t1 where a = 1", "delete from t1 where a = 1 returning *"},
+		{"delete from t1 where a = %%VALUE%%", "delete from t1 where a = 1 returning id, name"},
+		{"select a from t1 union select b from t2", "select a from t1 union all select b from t2"},
+	} {
+		r.Begin("ignored-clause:"+w[1], true, "corpus", "corpus:ignored-clause")
+		out := r.Do("C05.match " + patternToken(w[0]) + " " + stmtToken(w[1]))
+		r.Check(out == "false", "pattern-ignores-clause", "pattern `"+w[0]+"` matches `"+w[1]+"` => "+out)
+	}
+	// table identifiers are compared after CompliantName(): a pattern for table a_b matches a statement on table `a-b`
+	for _, w := range [][2]string{{"select a from a_b", "select a from `a-b`"}, {"select a from a_b where c = %%VALUE%%", "select a from `a b` where c = 1"}} {
+		r.Begin("compliant-name:"+w[1], true, "corpus", "corpus:compliant-name")
+		if out := r.Do("C05.match " + patternToken(w[0]) + " " + stmtToken(w[1])); out != "false" {
+			r.Fail("pattern-table-compliant-name", "pattern `"+w[0]+"` matches the statement on another table `"+w[1]+"` => "+out)
+		}
+	}
 
 	// a denied statement must not leave a pending entry (PostgreSQL simple query)
 	r.Begin("session-witness", true, "corpus")
